@@ -17,7 +17,11 @@ use rspack_sources::verif::Event;
 #[derive(Clone, Copy, Debug, PartialEq, Eq)]
 enum St {
   Ready,
+  /// waits for a modelled lock (OnceLock initialiser in progress)
   Wants(usize),
+  /// probed a real lock and found it busy at progress count n: may re-probe once
+  /// some other thread has made progress
+  BlockedReal(u64),
   Done,
 }
 
@@ -48,6 +52,10 @@ pub struct Inner {
   aborted: bool,
   all_done: bool,
   pub points: u64,
+  /// bumped whenever any thread passes a point or finishes
+  progress: u64,
+  /// times a thread found a real lock busy
+  pub real_blocks: u64,
 }
 
 pub struct Sched {
@@ -76,6 +84,8 @@ impl Sched {
         aborted: false,
         all_done: false,
         points: 0,
+        progress: 0,
+        real_blocks: 0,
       }),
       cv: Condvar::new(),
     })
@@ -86,6 +96,7 @@ impl Sched {
       .filter(|&t| match g.status[t] {
         St::Ready => true,
         St::Wants(l) => g.locks.get(&l).map_or(true, |o| *o == t),
+        St::BlockedReal(since) => g.progress > since,
         St::Done => false,
       })
       .collect()
@@ -113,7 +124,10 @@ impl Sched {
     if cur_enabled {
       options.push(me);
     }
-    options.extend(enabled.iter().copied().filter(|t| *t != me));
+    // threads that can make real progress come before threads that would only re-probe a busy
+    // lock: the default choice must reach the lock holder, or re-probers starve it for ever
+    options.extend(enabled.iter().copied().filter(|t| *t != me && !matches!(g.status[*t], St::BlockedReal(_))));
+    options.extend(enabled.iter().copied().filter(|t| *t != me && matches!(g.status[*t], St::BlockedReal(_))));
     let mut choice = 0usize;
     if options.len() > 1 {
       if g.pos < g.schedule.len() {
@@ -166,17 +180,14 @@ impl Sched {
   pub fn point(&self, me: usize, ev: Event, site: &'static str, obj: usize, flag: bool, at_hook: bool) {
     let mut g = self.m.lock().unwrap();
     g.points += 1;
+    g.progress += 1;
     if g.trace.len() < 400 {
       g.trace.push(format!("t{me} {ev:?} {site}{}", if flag { " (key present)" } else { "" }));
     }
     match ev {
       Event::LockHeld => {
-        if let Some(o) = g.locks.get(&obj) {
-          if *o != me {
-            let o = *o;
-            g.violations.push(format!("harness: lock {site} acquired by t{me} while recorded as held by t{o}"));
-          }
-        }
+        // (informational for DashMap shards, whose real state is probed; the model table only
+        // decides for locks announced with LockWant, i.e. the OnceLock initialiser)
         g.locks.insert(obj, me);
         g.status[me] = St::Ready;
         return;
@@ -193,11 +204,18 @@ impl Sched {
       }
       Event::LockWant => g.status[me] = St::Wants(obj),
       Event::Access => g.status[me] = St::Ready,
+      Event::LockBlocked => {
+        // the real lock is busy: somebody else has to run first
+        g.real_blocks += 1;
+        let now = g.progress;
+        g.status[me] = St::BlockedReal(now);
+      }
     }
     Self::decide(&mut g, me, at_hook);
     let mut g = self.wait_turn(g, me);
-    // we run again: a wanted lock is free now and will be taken before the next point
-    if let St::Wants(_) = g.status[me] {
+    // we run again: a wanted (modelled) lock is free now and will be taken before the next
+    // point; a really blocked thread goes back to re-probe
+    if matches!(g.status[me], St::Wants(_) | St::BlockedReal(_)) {
       g.status[me] = St::Ready;
     }
   }
@@ -206,6 +224,7 @@ impl Sched {
   pub fn finish(&self, me: usize) {
     let mut g = self.m.lock().unwrap();
     g.status[me] = St::Done;
+    g.progress += 1;
     // locks still recorded for this thread would be a harness error
     let stale: Vec<usize> = g.locks.iter().filter(|(_, o)| **o == me).map(|(k, _)| *k).collect();
     for k in stale {
